@@ -197,6 +197,20 @@ func c16Final(w *World, tw Step, side int) (Step, string, []string) {
 		if w.DB.rows[ghost] != nil {
 			return Step{}, "ghost exists", nil
 		}
+		knownPID := acct.PID
+		if tw.str("oauthacct") != "" {
+			// the known account is one an OAuth2 login created: it has no password at all
+			knownPID = ""
+			for _, pid := range w.DB.order {
+				if r := w.DB.rows[pid]; r != nil && r.OAuth2Provider != "" {
+					knownPID, row = pid, r
+					break
+				}
+			}
+			if knownPID == "" {
+				return Step{}, "no oauth2 account", nil
+			}
+		}
 		if pwMatches(row.Password, wrong) {
 			return Step{}, "wrong password is right", nil
 		}
@@ -218,11 +232,15 @@ func c16Final(w *World, tw Step, side int) (Step, string, []string) {
 			kind = "otp_login"
 		}
 		st := Step{Kind: kind, B: b, A: a, Sec: &SecretRef{Kind: "literal", Lit: wrong}}
+		if knownPID != acct.PID {
+			st.A = -1
+			st.Str = map[string]string{"pid": knownPID}
+		}
 		if side == 1 {
 			st.A = -1
 			st.Str = map[string]string{"pid": ghost}
 		}
-		return st, "", []string{acct.PID, ghost}
+		return st, "", []string{knownPID, ghost}
 	}
 	return Step{}, "unknown scenario", nil
 }
@@ -277,6 +295,15 @@ func c16Run(t *testing.T, seed uint64, tier string) *RunResult {
 	}
 	if r.Chance(1, 3) {
 		tw.Str["redir"] = []string{"/after/login", "/welcome?x=1", "relative"}[r.Intn(3)]
+	}
+	if sc == "c" && plan.Cfg.hasModule("oauth2") && r.Chance(1, 3) {
+		// make sure an OAuth2-created account exists and use it as the known one
+		prov := plan.Cfg.Providers[0]
+		plan.Steps = append(plan.Steps, Step{Kind: "oauth2_start", B: tw.B, Str: map[string]string{"provider": prov}},
+			Step{Kind: "oauth2_callback", B: tw.B, A: a, Sec: &SecretRef{Kind: "state", A: -1, Idx: -1}, Str: map[string]string{"provider": prov, "code": "fresh"}},
+			Step{Kind: "drop_session", B: tw.B})
+		tw.Str["oauthacct"] = "1"
+		delete(tw.Str, "path")
 	}
 	if sc == "b" && r.Chance(1, 4) {
 		// the mail system is down while both requests are made
